@@ -165,6 +165,61 @@ return (got, ('ok', len(exp[1]) + (1 if exp[2] is not None else 0)))
     return Obl(name + '#csvwriter', src, timeout=timeout, meta={'query': rel_render(q), 'bounds': 'through rbql_csv.CSVWriter (simple, TAB): header %r, shape %s' % (s['ha'], qh.shape_name(s['a']))})
 
 
+# Bare identifiers that merely LOOK like column variables: directly mapped column names (normalize_column_names=False) and variables
+# of the user init code.  The rule is "the identifier itself"; only a whole-identifier aN / bN names a source column.
+BARE = {
+    'direct[a1c]': dict(query='select a1c, kind, id, NR, a2', ha=['id', 'a1c', 'kind'], norm=False, init='', width=3,
+                        hdr=['a1c', 'kind', 'id', 'NR', 'a1c'], row='[r[1], r[2], r[0], nr, r[1]]'),
+    'direct[b2b,a10_]': dict(query='select b2b, a10_, a1, A1', ha=['b2b', 'a10_', 'A1'], norm=False, init='', width=3,
+                             hdr=['b2b', 'a10_', 'b2b', 'A1'], row='[r[0], r[1], r[0], r[2]]'),
+    'uservar[b2b_rate]': dict(query='select a1, b2b_rate, a1x, NRx, NF, a.speed, c1', ha=['vehicle', 'speed'], norm=True, init='b2b_rate = 3; a1x = "q"; NRx = 5; c1 = 0', width=2,
+                              hdr=['vehicle', 'b2b_rate', 'a1x', 'NRx', 'NF', 'speed', 'c1'], row='[r[0], 3, "q", 5, 2, r[1], 0]'),
+    'uservar[nohdr-alias]': dict(query='select a2b as k, a2b, a2', ha=None, norm=True, init='a2b = 7', width=2,
+                                 hdr=['k', 'a2b', 'col3'], row='[7, 7, r[1]]'),
+    'uservar[join]': dict(query='select a1, b2b_rate, b3, a22z join b on a1 == b1', ha=['vehicle', 'speed'], hb=['vehicle_name', 'fuel', 'color'], norm=True, init='b2b_rate = 3; a22z = 1', width=2,
+                          hdr=['vehicle', 'b2b_rate', 'color', 'a22z'], row=None),
+    'uservar[count]': dict(query='select distinct count b1b, a1', ha=['x', 'y'], norm=True, init='b1b = 1', width=2,
+                           hdr=['col1', 'b1b', 'x'], row=None),
+}
+
+
+def _bare_obl(name, timeout):
+    c = BARE[name]
+    from vf.gen import str_params
+    params, pre, rows = [], [], []
+    for ri in range(2):
+        cells = []
+        for ci in range(c['width']):
+            p, pr, e = str_params('c%d%d' % (ri, ci), 1)
+            params += p
+            pre += pr
+            cells.append(e)
+        rows.append('[' + ', '.join(cells) + ']')
+    if name == 'uservar[join]':
+        exp = "[[r[0], 3, 'z', 1] for r in T if r[0] == 'k']"
+        call = "rbql.query_table(QUERY, [list(r) for r in T], out, warnings, [['k', 'f', 'z']], HA, HB, hdr, normalize_column_names=NORM, user_init_code=INIT)"
+    elif name == 'uservar[count]':
+        exp = "([[2, 1, T[0][0]]] if T[0][0] == T[1][0] else [[1, 1, T[0][0]], [1, 1, T[1][0]]])"
+        call = 'rbql.query_table(QUERY, [list(r) for r in T], out, warnings, None, HA, None, hdr, normalize_column_names=NORM, user_init_code=INIT)'
+    else:
+        exp = '[(lambda r, nr: %s)(r, i + 1) for i, r in enumerate(T)]' % c['row']
+        call = 'rbql.query_table(QUERY, [list(r) for r in T], out, warnings, None, HA, None, hdr, normalize_column_names=NORM, user_init_code=INIT)'
+    body = indent('''
+T = [%s]
+expected = ('ok', %s, HDR)
+out, warnings, hdr = [], [], []
+try:
+    %s
+    got = ('ok', out, hdr)
+except Exception as e:
+    got = ('err', type(e).__name__, str(e))
+return (got, expected)
+''' % (', '.join(rows), exp, call))
+    imports = 'QUERY = %r\nHA = %r\nHB = %r\nNORM = %r\nINIT = %r\nHDR = %r\n' % (c['query'], c['ha'], c.get('hb'), c['norm'], c['init'], c['hdr'])
+    src = harness(imports, params, pre, body)
+    return Obl('bare-ident:' + name, src, timeout=timeout, meta={'query': c['query'], 'bounds': '2 records x %d one-character symbolic cells; header %r, normalize_column_names=%r, user_init_code=%r' % (c['width'], c['ha'], c['norm'], c['init'])})
+
+
 def rel_render(q):
     from vf.refmodel import rel
     return rel.render(q)
@@ -181,4 +236,6 @@ def obligations(tier, seed):
         obs.append(qh.query_obl('C07', name, CASES[name], s['a'], s['b'], slen=1, timeout=150 if quick else 900, ha_spec=s['ha'], hb_spec=s['hb'], **s['kw']))
     for name in (['hdr[a1,a2|count]', 'hdr[a2,a1,NR,expr-as,5|]'] if quick else ['hdr[a1,a2|count]', 'hdr[a2,a1,NR,expr-as,5|]', 'hdr[star|count]', 'hdr[except a2]', 'hdr[update]', 'hdr[star,NR|]']):
         obs.append(_csv_width_obl(name, 150 if quick else 600))
+    for name in BARE:
+        obs.append(_bare_obl(name, 150 if quick else 600))
     return obs
